@@ -490,6 +490,10 @@ def run_crc(sim, nfc, params):
     try:
         world.activate(w, kind, variant)
         data, label = world.exchange_args(kind, choice, payload)
+        if mode == "crc_b":
+            # the Type 1 Tag code hands the same bytearray to exchange() again when it repeats a command
+            data = bytearray(data)
+            orig = bytes(data)
         desc = {"driver": drv, "kind": kind, "exchange": label}
         seen = {"raw": None}
         cur = {"spec": ["id"]}
@@ -533,6 +537,13 @@ def run_crc(sim, nfc, params):
                 r, out = e, "raised"
             t = seen["out"]
             if t is None:
+                if mode == "crc_b":
+                    # no answer from the tag model: was the command that went out well formed?
+                    for f in w.chip.t1_frames:
+                        if not frames.crc_b_ok(f) or (label != "RSEG" and f[:-2] != orig):
+                            raise Violation("crc_b-appended", fam + " repeated", "Type 1 Tag command %s given to exchange() "
+                                            "once more (same buffer) went out through the CIU as %s, expected %s; %r"
+                                            % (orig.hex(), f.hex(), (orig + frames.crc_b(orig)).hex(), desc))
                 raise core.HarnessError("tamper point not reached for %r" % (spec,))
             sim.count("evaluations")
             checked = len(t) > 2 or mode == "crc_b"       # 1-2 byte Type 2 responses are ACK/NAK: no CRC by design
@@ -559,6 +570,14 @@ def run_crc(sim, nfc, params):
                 raise Violation("crc-wrong-data", "%s %s" % (fam, tag), "returned %s for RF response %s; %r"
                                 % (bytes(r).hex(), t.hex(), desc), ov)
             sim.probe("%s.%s" % (tag, "accepted" if out == "ret" else "rejected"))
+        if mode == "crc_b":
+            # the commands that were repeated (same buffer object) after rejected responses
+            for f in w.chip.t1_frames:
+                if not frames.crc_b_ok(f) or (label != "RSEG" and f[:-2] != orig):
+                    raise Violation("crc_b-appended", fam + " repeated", "Type 1 Tag command %s given to exchange() once more "
+                                    "(same buffer) went out through the CIU as %s, expected %s; %r"
+                                    % (orig.hex(), f.hex(), (orig + frames.crc_b(orig)).hex(), desc))
+            sim.probe("crc_b.appended_ok_when_repeated")
     finally:
         w.chip.rf_tamper = None
         w.close()
